@@ -106,6 +106,57 @@ pub fn check(c: &Case) -> Verdict {
     Verdict::Pass(Pass { nontrivial, key: key_of(&c.layouts), classes, known: vec![], sub_evals: 1 + c.layouts.len() as u64, sample: Some(sample), extra_keys: vec![] })
 }
 
+/// An index with a hole: height `gap` of the chain has no data-bearing record (a node in initial block download stores
+/// blocks out of order; the record of a block it has not received yet is header-only) while higher heights have data.
+/// The statement does not say how far such a run gets, but whatever is delivered for a height must be the block
+/// recorded for THAT height: exit status 0 is accepted with the output of a prefix of the chain that ends before the
+/// hole, a failure is accepted when it leaves no final-named file.
+#[derive(Clone, Debug, Serialize, Deserialize)]
+pub struct GapCase {
+    pub chain: ChainSpec,
+    pub gap: u16,
+    pub layout: LayoutSpec,
+}
+
+pub fn check_gap(c: &GapCase) -> Verdict {
+    let built = c.chain.build();
+    let n = built.blocks.len();
+    if n < 3 {
+        return Verdict::Pass(Pass::default());
+    }
+    let base = built.base();
+    let g = 1 + vpmodel::spec::mono(c.gap, n - 2); // 1..=n-2: there are data-bearing records above the hole
+    let mut plan = c.layout.to_plan(&built);
+    plan.recs[g].status = vpmodel::datadir::VALID_TREE;
+    plan.recs[g].ntx = 0;
+    let w = infra!(World::create("c03g", &mut plan));
+    let mut o = RunOpts::new(built.coin, Callback::CsvDump);
+    if base > 0 {
+        o.start = Some(base);
+    }
+    let out = infra!(w.run(&o));
+    if let Some(v) = timed_out_is_infra(&out) {
+        return v;
+    }
+    let outcome;
+    if out.ok() {
+        let rows = out.files.iter().find(|(k, _)| k.starts_with("blocks-")).map(|(_, v)| String::from_utf8_lossy(v).lines().count()).unwrap_or(0);
+        if rows == 0 || rows > g {
+            return Verdict::Fail(format!("index without a data-bearing record at height {} (chain {}..={}): {} block rows were written - a block was delivered for a height whose record names no block", base + g as u64, base, built.tip(), rows));
+        }
+        let all = built.all();
+        holds!(check_csvdump(built.coin, &all[..rows], &out, base).map_err(|m| format!("index with a hole at height {}: the {} delivered blocks are not the ones recorded for heights {}..: {}", base + g as u64, rows, base, m)));
+        outcome = if rows == g { "stops-before-hole" } else { "stops-earlier" };
+    } else {
+        if !out.final_files().is_empty() {
+            return Verdict::Fail(format!("index with a hole at height {}: failed run left final-named files {:?}", base + g as u64, out.final_files()));
+        }
+        outcome = "fails";
+    }
+    let classes = vec![format!("outcome={}", outcome), format!("files={}", c.layout.files_used(n).min(5))];
+    Verdict::Pass(Pass { nontrivial: true, key: key_of(c), classes, known: vec![], sub_evals: 1, sample: Some(serde_json::json!({"coin": built.coin.cli(), "heights": format!("{}..={}", base, built.tip()), "hole_at": base + g as u64, "outcome": outcome})), extra_keys: vec![] })
+}
+
 /// Bitcoin Core VarInt width boundaries: the largest value of k bytes and the smallest of k+1 bytes
 fn varint_boundaries() -> Vec<u64> {
     let mut v = Vec::new();
@@ -148,6 +199,8 @@ fn boundary_cases() -> Vec<Case> {
 
 fn run(eng: &Engine, a: &Args) {
     eng.enumerate("varint-width-boundaries", boundary_cases(), check);
+    let tier0 = a.tier;
+    eng.explore("index-with-a-hole", scaled(if a.tier == Tier::Quick { 60 } else { 800 }, a), move || (gen::chain(&chain_cfg(tier0)), any::<u16>(), layout::layout(tier0, false, false)).prop_map(|(chain, gap, layout)| GapCase { chain, gap, layout }).boxed(), check_gap);
     // 700 blk files that no record names, next to a chain in two indexed files, under a limit of 64 descriptors: the
     // result must be that of the plain directory under the same limit
     let scripts: Vec<Vec<u8>> = (0..6usize).map(|i| vec![0x51 + i as u8, 0x87]).collect();
@@ -166,6 +219,7 @@ fn run(eng: &Engine, a: &Args) {
 fn replay(part: &str, case: serde_json::Value) -> Option<Verdict> {
     match part {
         "layout-vs-canonical" | "layout-vs-canonical-4GiB" | "varint-width-boundaries" | "many-unreferenced-blk-files" => Some(check(&serde_json::from_value(case).ok()?)),
+        "index-with-a-hole" => Some(check_gap(&serde_json::from_value(case).ok()?)),
         _ => None,
     }
 }
